@@ -82,7 +82,7 @@ def simplify_steps(schedule, want, budget):
     for i in range(len(steps)):
         st = steps[i]
         for cand_st in (
-            {k: v for k, v in st.items() if k not in ("inject", "audit")},
+            {k: v for k, v in st.items() if k not in ("inject", "audit", "defer")},
             dict(st, h=0),
         ):
             if cand_st == st or budget[0] <= 0:
